@@ -16,3 +16,13 @@ Proof.
   - unfold gen_defvjp_route, gen_route_two, gen_pick. simpl.
     destruct (dget a d); [|reflexivity]. simpl. destruct (dget b d); reflexivity.
 Qed.
+
+(* forward mode: the dictionary, the contributions of defjvp / defjvp_argnum / def_linear, and the space whose zero a None
+   entry stands for in either mode *)
+Theorem forward_tables_follow_source :
+  (forall argnums makers, jmake_dict argnums makers = gen_jmake_dict argnums makers)
+  /\ (forall d argnums, defjvp_route d argnums = gen_defjvp_route d argnums)
+  /\ (forall rid argnums, defjvp_argnum_route rid argnums = gen_defjvp_argnum_route rid argnums)
+  /\ (forall argnums, def_linear_route argnums = gen_def_linear_route argnums)
+  /\ none_vjp_zero = gen_none_vjp_zero /\ none_jvp_zero = gen_none_jvp_zero.
+Proof. repeat split; reflexivity. Qed.
